@@ -17,6 +17,12 @@ UNIT_SEARCHES = {
     'radix4': ['Radix4', 'Radix3'],
     'raders': ['RadersAlgorithm'],
     'bluesteins': ['BluesteinsAlgorithm'],
+    'butterflies': ['shapes:40', 'chunks:40'],
+    'dft': ['shapes:8'],
+    'helpers': ['helpers_small'],
+    'twiddles': ['dft_scalar:64+'],
+    'array_utils': ['dft_scalar:64+'],
+    'fft_cache': ['plan_history:quick'],
 }
 
 
